@@ -1,0 +1,50 @@
+//go:build verif
+// +build verif
+
+package memdb
+
+// Verification exports (build tag verif only; add-only, nothing in memdb.go is changed).
+// They return copies of the internal arrays of the skip list so that an external harness can
+// compare them, field by field, with a model of the same data structure.
+
+// VerifDump is a snapshot of the internal state of a DB.
+type VerifDump struct {
+	KvData    []byte
+	NodeData  []int
+	PrevNode  []int
+	MaxHeight int
+	N         int
+	KvSize    int
+	KvCap     int
+}
+
+// VerifDump returns a copy of the internal state, taken under the read lock.
+func (p *DB) VerifDump() VerifDump {
+	p.mu.RLock()
+	defer p.mu.RUnlock()
+	d := VerifDump{
+		KvData:    append([]byte{}, p.kvData...),
+		NodeData:  append([]int{}, p.nodeData...),
+		PrevNode:  append([]int{}, p.prevNode[:]...),
+		MaxHeight: p.maxHeight,
+		N:         p.n,
+		KvSize:    p.kvSize,
+		KvCap:     cap(p.kvData),
+	}
+	return d
+}
+
+// VerifConsts returns the layout constants of the node array.
+func VerifConsts() (maxHeight, kv, key, val, height, next int) {
+	return tMaxHeight, nKV, nKey, nVal, nHeight, nNext
+}
+
+// VerifIterNode returns the node index an iterator created by NewIterator currently holds
+// (0 = invalid), and its direction flag.
+func VerifIterNode(it interface{}) (node int, forward bool, ok bool) {
+	i, ok := it.(*dbIter)
+	if !ok {
+		return 0, false, false
+	}
+	return i.node, i.forward, true
+}
